@@ -23,7 +23,7 @@ LEVEL = ("(Also: apply() with equidistant lists of grid times; identity, semigro
          "expm(L t_i) rho within 3x the exact order-4 truncation error of the dense step; k calls of calculate_next "
          "(jit mode, save on and off) equal calculate()[k]; conversion from the rotating frame equals the "
          "laboratory-frame exponential, also for grids that do not start at zero."
-         " Later additions: every documented form of several times in apply(); calculation and conversion in units contexts; pure dephasing in superoperator and direct propagation; step-by-step result converted from the rotating frame.")
+         " Later additions: every documented form of several times in apply(); calculation and conversion in units contexts; pure dephasing in superoperator and direct propagation; step-by-step result converted from the rotating frame. Round five: single-time superoperators taken inside a context; in-place application on real and integer targets; propagator re-used with other refinements.")
 NOTE = ("dim <= 4, grids of 3..8 points, 1..10 dense steps, x = dt_dense*||L|| in [0.05, 0.5]. A relaxation tensor is "
         "always supplied (calculate() without one raises). Gaussian pure dephasing and time-dependent tensors are "
         "outside the property ('time-independent generator').")
